@@ -32,3 +32,9 @@ PROPS["C12"] = {
     "trusted_base": ["cbmc/goto-cc 6.11.0 (MiniSat2)", "lib/ds_sink.c as the DString specification"],
     "assumptions": [NOFAIL, _C12_SHAPE],
 }
+
+# ---- (2) tokenizer post-processing, Aho-Corasick search by contract
+U("c12_tokenize_post", ["C12", "C15"], "h_tokenize", ["C12/tok.c"], ["critic_markup.c", "token.c", "char.c"], plain=True, lib=(), kind="bounded",
+  defines=["-DDISABLE_OBJECT_POOL"], bounds={"matches<=": 2, "start,len<=": 8, "unwind": 8}, cbmc_flags=["--unwind", "8", "--unwinding-assertions"],
+  functions=["mmd_critic_tokenize_string"], callees={"ac_trie_leftmost_longest_search/trie_*": "contract stubs (Aho-Corasick assumed): ordered non-overlapping matches inside the requested range", "token_new/token_append_child": "body"},
+  native=None, min_obligations=20, assumptions=[NOFAIL, "Aho-Corasick search returns ordered, non-overlapping, non-empty matches inside [start, start+len) (assumed)"])
